@@ -47,7 +47,10 @@ func (s *Server) tagList(repoStr string) http.HandlerFunc {
 		sort.Strings(tl.Tags)
 		n := r.URL.Query().Get("n")
 		if n != "" {
-			if nInt, err := strconv.Atoi(n); err == nil && len(tl.Tags) > nInt {
+			if nInt, err := strconv.Atoi(n); err == nil && nInt == 0 {
+				// zero returns an empty list without a link to a next page
+				tl.Tags = tl.Tags[:0]
+			} else if err == nil && nInt > 0 && len(tl.Tags) > nInt {
 				tl.Tags = tl.Tags[:nInt]
 				// add next header for pagination
 				next := r.URL
